@@ -23,6 +23,7 @@ def script_for(cid, path, target_path, other_path, rnd, order=None):
     lines += ["ctx 1", "open 1 %s rw" % target_path, "init_read 1 1", "copy_chunks 0 1", "find_matching 0 1",
               "ctx 2", "open 2 %s r" % other_path, "init_read 2 2",
               "ctx 3", "open 3 %s.rw rw" % path, "init_read 3 3", "find_valid 3", "copy_chunks 2 3", "valid 3",
+              "ctx 4", "open 4 %s r" % other_path.replace("valid-other", "valid-flag4"), "init_read 4 4", "find_matching 4 3", "find_matching 3 4", "find_matching 4 2", "find_matching 2 4", "free 4",
               "dl_init 0 3", "missing_range 2 3 3", "dl_set_range 0 2", "write_chunk_cb 0 rep:41:300", "dl_free 0",
               "free 3", "free 2", "free 1", "free 0", "end"]
     return "\n".join(lines) + "\n"
@@ -77,6 +78,10 @@ def run(tier):
         inputs = keep + rnd.sample(rest, 1500 - len(keep)) if len(keep) < 1500 else rnd.sample(inputs, 1500)
     valid = seeds[0][1]; valid2 = seeds[1][1]
     vt = os.path.join(wd, "valid-target.zck"); vo = os.path.join(wd, "valid-other.zck"); open(vo, "wb").write(valid2)
+    # a valid uncompressed file that carries uncompressed-source checksums (pairs with zstd files by those)
+    v4 = ref.build_file([b""] + [corpus.text(rnd, n) for n in (100, 300, 50)], comp_type=0, hash_type=1, chunk_hash_type=1, flags=4)[0]
+    open(os.path.join(wd, "valid-flag4.zck"), "wb").write(v4)
+    inputs.append(("valid-zstd-noflag", ref.build_file([b""] + [corpus.text(rnd, n) for n in (100, 300, 50)], comp_type=2, hash_type=1, chunk_hash_type=1)[0]))
     scripts = []; names = {}
     for i, (name, b) in enumerate(inputs):
         cid = "i%d" % i
